@@ -157,3 +157,22 @@ func TestC02ExactOrder(t *testing.T) {
 }
 
 var _ = sort.Ints
+
+func TestC02RealIngress(t *testing.T) {
+	dir := t.TempDir()
+	world.Run(t, "C02", "real-ingress", world.Scale(80, 400), func(t *rapid.T) c02gen.ScenarioB { return c02gen.GenB(t, world.Scale(8, 20), false) },
+		func(sc c02gen.ScenarioB) world.Verdict {
+			return c02gen.RunB(sc, dir, "C02",
+				func(r *c02gen.BRun, when string) *world.Problem { return r.F.CheckPrefix(when, true) },
+				func(r *c02gen.BRun) *world.Problem {
+					if p := r.F.CheckPrefix("at the end", true); p != nil {
+						return p
+					}
+					got, _ := r.F.N.Store.Height(r.C.P.Ctx)
+					if got != r.HStar && !(got == 0 && r.HStar == r.C.Opts.InitialHeight-1) {
+						return &world.Problem{Sig: "not-converged", Msg: fmt.Sprintf("both parts of every block up to %d were delivered through the DA layer / P2P stores, the full node stopped at height %d", r.HStar, got)}
+					}
+					return nil
+				})
+		})
+}
